@@ -408,6 +408,11 @@ func c10R1(c *Check, sr *storeRoles) {
 	c.Obl(gt >= 2, "C10.R1", "predicate/zero-disables", P.Pos(exp.Pos()), "each limit is applied only when its timeout is > 0",
 		"the expiry predicate does not guard both limits with timeout > 0 (a zero timeout must disable the limit, not expire everything)")
 
+	// a session leaves the map only through RemoveSession or through that predicate (C12.R6): a sweep with cut-offs of its
+	// own applies a limit whose timeout is zero
+	if c.ID == "C10" {
+		importObls(c, "C12", checkC12, "C10.R1", func(o *Obligation) bool { return strings.HasPrefix(o.Key, "C12.R6/") })
+	}
 	// ---- every lookup passes the predicate
 	nLookups := 0
 	for _, fn := range sr.memMethods {
